@@ -34,8 +34,8 @@ class OctBinding(NativeKeyBinding):
 
     @classmethod
     def import_from_bytes(cls, value: bytes, password: Any | None = None) -> bytes:
-        # security check
-        if value.startswith(POSSIBLE_UNSAFE_KEYS):
+        # security check; white space in front of the armor does not make a key file a secret
+        if value.lstrip().startswith(POSSIBLE_UNSAFE_KEYS):
             warnings.warn("This key may not be safe to import")
         return value
 
